@@ -111,6 +111,18 @@ def specScanRange (kvs : List KV) (lo hi : Bytes) : Except Err ScanRes :=
   | some l => .ok (l.map normKV, .done)
   | none => .error .rejected
 
+/-- the reader answers exactly like the sorted map of `kvs` (point lookups for the probes in `P`):
+Get returns the value (nil and empty distinguished) or `NotFound`, Contains tells membership, the three
+scans deliver the pairs in ascending order with inclusive bounds and end with `Done`, lower > upper is
+rejected; no call changes the index. -/
+structure ReadsAsMap (comps : Nat → Compression) (P : Bytes → Prop) (r : Reader) (idx : Index)
+    (kvs : List KV) : Prop where
+  get : ∀ k, P k → r.get idx k = (idx, some (specGetRes kvs k))
+  contains : ∀ k, P k → r.contains idx k = (idx, some (.ok (specGet bytesCmp kvs k).isSome))
+  scan : r.scan comps idx = .ok (kvs.map normKV, .done)
+  scanFrom : ∀ k, r.scanFrom idx k = (idx, specScanFrom kvs k)
+  scanRange : ∀ lo hi, r.scanRange idx lo hi = (idx, specScanRange kvs lo hi)
+
 /-- map loader: every key and the probe fit the mapper's width and zero padding identifies no two of them -/
 def PadInjective (n : Nat) (keys : List Bytes) (probe : Bytes) : Prop :=
   (∀ k ∈ probe :: keys, k.length ≤ n) ∧
